@@ -38,6 +38,7 @@ CONSTANTS TTL_A,      \* life of an access token, ticks
           TTL_R,      \* life of a refresh token, ticks
           MaxClock,   \* bound on now        (exhaustive / simulation)
           MaxIds,     \* bound on issued ids (exhaustive / simulation)
+          MaxTokenOnly, \* bound on the number of CreateToken calls (exhaustive / simulation)
           MaxSteps,   \* bound on Len(hist)  (simulation; only when Record)
           Secrets,    \* configurable signing secrets, a set of naturals; 0 = none configured
           Findings,   \* subset of AllFindings a step may exhibit
@@ -130,8 +131,9 @@ Create(a, r, ok) ==
   /\ UNCHANGED <<now, secret, revoked, rotated>>
 
 \* CreateToken: access token only.
+TokenOnlyCount == Cardinality({k \in DOMAIN tok : tok[k].kind = "acc"}) - Cardinality({k \in DOMAIN tok : tok[k].kind = "ref"})
 CreateToken(a, ok) ==
-  /\ nextId + 1 <= MaxIds /\ CanStep
+  /\ nextId + 1 <= MaxIds /\ TokenOnlyCount < MaxTokenOnly /\ CanStep
   /\ a = nextId + 1 /\ ok = TRUE
   /\ tok' = tok @@ (a :> [kind |-> "acc", sec |-> secret, exp |-> now + TTL_A])
   /\ table' = table @@ (a :> [acc |-> a, ref |-> 0, exp |-> now + TTL_A, refExp |-> 0])
@@ -145,7 +147,12 @@ Validate(t, mut, ok) ==
   /\ t \in DOMAIN tok /\ CanStep
   /\ \E G \in SUBSET Findings :
         ok = (~mut /\ Accepts(G, tok, table, t))
-  /\ table' = IF mut THEN table ELSE AfterValidate(table, t)
+  \* ExpiredCleanup happens when the store is consulted.  For an access token whose signature does not
+  \* verify the statement does not care whether the server still looks into the store (the unchanged code
+  \* does, a server that rejects on the signature alone does not): both are allowed.
+  /\ table' \in IF mut THEN {table}
+                ELSE IF tok[t].kind = "acc" /\ tok[t].sec # secret THEN {table, AfterValidate(table, t)}
+                ELSE {AfterValidate(table, t)}
   /\ last' = If(tok[t].kind = "acc" /\ ok /\ ~Genuine(t, mut), "accepted-not-genuine")
   /\ hist' = Rec(hist, Step("Validate", t, mut, 0, "", 0, Labels(t)))
   /\ UNCHANGED <<now, secret, nextId, tok, revoked, rotated>>
